@@ -20,6 +20,8 @@ func flagViaBuilders(f ldmodel.FeatureFlag) ldmodel.FeatureFlag {
 	for _, t := range f.ContextTargets {
 		b.AddContextTarget(t.ContextKind, t.Variation, t.Values...)
 	}
+	// a builder is often kept and built more than once: an intermediate Build() must not freeze anything
+	_ = b.Build()
 	for _, r := range f.Rules {
 		rb := ldbuilders.NewRuleBuilder().ID(r.ID).TrackEvents(r.TrackEvents).VariationOrRollout(r.VariationOrRollout).Clauses(plainClauses(r.Clauses)...)
 		b.AddRule(rb)
@@ -42,8 +44,12 @@ func flagViaBuilders(f ldmodel.FeatureFlag) ldmodel.FeatureFlag {
 }
 
 func segmentViaBuilders(s ldmodel.Segment) ldmodel.Segment {
-	b := ldbuilders.NewSegmentBuilder(s.Key).Salt(s.Salt).Version(s.Version).Included(s.Included...).Excluded(s.Excluded...).
+	// the builder first produces an earlier version with the two key lists the other way round, then the real one:
+	// what Build() returns must reflect the builder's current lists, not what an earlier Build() precomputed
+	b := ldbuilders.NewSegmentBuilder(s.Key).Salt(s.Salt).Version(s.Version).Included(s.Excluded...).Excluded(s.Included...).
 		Unbounded(s.Unbounded).UnboundedContextKind(s.UnboundedContextKind)
+	_ = b.Build()
+	b.Included(s.Included...).Excluded(s.Excluded...)
 	for _, t := range s.IncludedContexts {
 		b.IncludedContextKind(t.ContextKind, t.Values...)
 	}
